@@ -20,7 +20,7 @@ VERIF = os.path.dirname(os.path.dirname(os.path.abspath(__file__)))
 REPO = os.environ.get("VERIF_REPO", "/repo")
 LEAN_SRC = os.path.join(VERIF, "lean")
 CACHE = os.environ.get("VERIF_CACHE", os.path.join(VERIF, ".cache"))
-EVID = os.path.join(VERIF, "evidence")
+EVID = os.environ.get("VERIF_EVID", os.path.join(VERIF, "evidence"))
 GUARD = "COLOQUINTE_VERIF"
 NCPU = os.cpu_count() or 4
 
@@ -97,11 +97,26 @@ def lean_dir():
     if not d:
         return LEAN_SRC
     os.makedirs(d, exist_ok=True)
-    for n in ["ColoVerif", "Driver", "lakefile.toml"]:
+    for n in ["Driver", "lakefile.toml"]:
         dst = os.path.join(d, n)
         if not os.path.lexists(dst):
             os.symlink(os.path.join(LEAN_SRC, n), dst)
+    cv = os.path.join(d, "ColoVerif")
+    if os.path.islink(cv):
+        return d  # older layout: whole source tree shared, including Gen
+    # private Gen/ (generated from $VERIF_REPO), everything else symlinked
+    os.makedirs(os.path.join(cv, "Gen"), exist_ok=True)
+    for n in os.listdir(os.path.join(LEAN_SRC, "ColoVerif")):
+        if n == "Gen":
+            continue
+        dst = os.path.join(cv, n)
+        if not os.path.lexists(dst):
+            os.symlink(os.path.join(LEAN_SRC, "ColoVerif", n), dst)
     return d
+
+
+def gen_dir():
+    return os.path.join(lean_dir(), "ColoVerif", "Gen")
 
 
 def lake_build(targets, timeout=3600):
